@@ -11,7 +11,9 @@ TIE_A = ["TsdbGen"]
 RULE = ("exhaustive strings over the alphabet {\\ @ LF CR s n a e-acute} up to length 4 "
         "(quick) / 5 (thorough) through escape, unescape and split; random Unicode strings; "
         "records of 1-5 str/None values; integer spellings; typed joins; rows addressed by "
-        "index, negative index, slice, name and iteration. A case is non-trivial when its "
+        "index, negative index, slice, name and iteration; date texts (every documented spelling of fixed "
+        "instants, generated spellings with parts slightly out of range, mutated spellings, keywords, random "
+        "texts) through cast and date-times through format; floats through format and cast. A case is non-trivial when its "
         "input contains a backslash, '@', newline, None/empty value, a sign or a slice/negative "
         "index; distinct = distinct canonical JSON of the case.")
 EXHAUSTIVE = {"quick": True, "thorough": True}
@@ -578,9 +580,15 @@ LEVEL_TEXT = ("Proof (Coq 8.16, kernel-checked, no axioms): escape/unescape mutu
               "stored data for every index and slice (slice.indices semantics modelled exactly). The "
               "model is tied to delphin/tsdb.py by regenerated kernels (Tie A) and by kernel-evaluated "
               "correspondence on an exhaustive small-alphabet sweep plus random inputs (Tie B). "
-              "Partial: the float clause rests on float(repr(x))==x; date clause see level_note.")
+              "Dates: casting the formatted form of any valid date-time of the years 1000-9999 returns it, and "
+              "every documented spelling of an instant (DD-MM-YY[YY] with optional day, YYYY-MM[-DD], numeric or "
+              "named month in any letter case, two-digit years 1993-2092, optional time with or without seconds "
+              "and parenthesis) denotes that instant - theorems over a model of the two regular expressions of "
+              "_parse_datetime, _date_fix and strptime's calendar check, tied by correspondence on date texts. "
+              "Partial: the float clause rests on float(repr(x))==x.")
 LEVEL_NOTE = ("Trusted: Coq kernel + vm_compute; the hand model of split/join/cast/format/Row validated "
               "by correspondence; int() modelled on [+-]?[0-9]+ only; floats not modelled (language "
-              "guarantee, oracle-sampled); dates (second resolution, years 1000-9999) are decided by the oracle, not modelled.")
+              "guarantee, oracle-checked on formatted values); the date model is hand-written (ASCII; the value of "
+              "now/today is the clock's) and validated by correspondence.")
 TECHNIQUE = "Coq proof over executable Gallina model + regenerated kernels + kernel-checked correspondence"
 DESIGN_REF = "DESIGN.md section 6, C08"
